@@ -75,7 +75,10 @@ def generate(prop, seed, tier):
     n_ops = S.int(1, 4)
     need_fitted = False
     for k in range(n_ops):
-        kind = S.wpick([("save", 5), ("load", 3), ("plot2d", 5), ("plot_dep", 1.2), ("plot_hist", 1), ("plot_iso", 1), ("plot_mq", 0.8), ("plot_dep3", 0.8), ("plot_iso_indep", 0.8)])
+        kind = S.wpick([("save", 5), ("load", 3), ("plot2d", 5), ("plot_dep", 1.2), ("plot_hist", 1), ("plot_iso", 1), ("plot_mq", 0.8), ("plot_dep3", 0.8), ("plot_iso_indep", 0.8), ("load_default", 0.25)])
+        if kind == "load_default":
+            ops.append({"op": "load_default"})
+            continue
         if kind == "plot_iso_indep":
             ops.append({"op": "plot_iso_indep", "swap": S.chance(0.4), "levels": S.pick([None, [0.001, 0.01, 0.05]]), "n_grid": S.pick([120, 250]), "sseed": S.sub("isi", k), "semantics": None})
             continue
@@ -303,6 +306,37 @@ def do_save(run, scen, op, si, root, model2, model3):
 # --------------------------------------------------------------------------
 
 
+def do_load_default(run, si):
+    """read_ec_benchmark_dataset() without a path: the shipped data set A, every row, in order"""
+    import virocon
+    from virocon import read_ec_benchmark_dataset
+
+    path = os.path.join(os.path.dirname(os.path.dirname(os.path.abspath(virocon.__file__))), "datasets", "ec-benchmark_dataset_A.txt")
+    with open(path) as f:
+        lines = [ln for ln in f.read().split("\n") if ln.strip()]
+    exc = None
+    try:
+        df = read_ec_benchmark_dataset()
+    except Exception as e:  # noqa: BLE001
+        exc = e
+    run.event("load_default", None, type(exc).__name__ if exc else list(df.shape))
+    if exc is not None:
+        run.violate("load-raises", type(exc).__name__ + "/default-dataset", {"exc": repr(exc)[:300], "step": si})
+        return
+    run.count("probe:default-dataset-read")
+    if len(df) != len(lines) - 1:
+        run.violate("load-shape", "rows/default-dataset", {"got": len(df), "want": len(lines) - 1, "step": si})
+        return
+    for r_ in (0, 1, len(df) // 2, len(df) - 1):
+        parts = [x.strip() for x in lines[r_ + 1].split(";")]
+        want = [float(x) for x in parts[1:]]
+        got = [float(v) for v in df.iloc[r_].values]
+        stamp = datetime.datetime.strptime(parts[0], "%Y-%m-%d-%H")
+        if got != want or df.index[r_].to_pydatetime() != stamp:
+            run.violate("load-values", "values/default-dataset", {"row": r_, "got": got, "want": want, "index": str(df.index[r_]), "stamp": parts[0], "step": si})
+            return
+
+
 def do_load(run, scen, op, si, root):
     from virocon import read_ec_benchmark_dataset
 
@@ -341,7 +375,9 @@ def do_load(run, scen, op, si, root):
         if fault is not None:
             fs.plans["r"] = {"short_read": fault["n"]} if fault["kind"] == "short_read" else {"eio_read_after": fault["after"]}
         try:
-            df = read_ec_benchmark_dataset(path)
+            import pathlib
+
+            df = read_ec_benchmark_dataset(pathlib.Path(path) if (op["fseed"] % 4 == 0 and fault is None) else path)
         except Exception as e:  # noqa: BLE001
             exc = e
         fired = {k: v for k, v in fs.stats.items() if k.startswith("fired_")}
@@ -764,6 +800,8 @@ def execute(prop, scen):
                     do_load(run, scen, op, si, root)
                 elif op["op"] == "plot2d":
                     do_plot2d(run, scen, op, si, model2, state)
+                elif op["op"] == "load_default":
+                    do_load_default(run, si)
                 elif op["op"] == "plot_dep3":
                     do_plot_dep3(run, scen, op, si)
                 elif op["op"] == "plot_iso_indep":
@@ -836,5 +874,5 @@ def describe(prop):
             "a save that raises may leave anything on disk; a save that returns must have written the complete file",
             "isodensity lines are judged by evaluating the model's pdf at the drawn vertices (25 % tolerance for grid interpolation)",
         ],
-        "probes": ["save-after-fault-recovers", "save-overwrites", "reader-bypassed-file-seam", "file-read-again-after-caller-changed-frame", "save-overwrites-with-shorter-contour"],
+        "probes": ["save-after-fault-recovers", "save-overwrites", "reader-bypassed-file-seam", "file-read-again-after-caller-changed-frame", "save-overwrites-with-shorter-contour", "default-dataset-read"],
     }
